@@ -1049,7 +1049,7 @@ def _():
     return (ufl.bessel_J(1, f) + ufl.bessel_Y(0, f)) * v * dx(degree=1)
 
 
-@reg("mathfuncs_triangle", "c01 c18 c09")
+@reg("mathfuncs_triangle", "c01 c18")
 def _():
     m = mesh("triangle")
     V = space(m)
@@ -1106,7 +1106,7 @@ def _():
 # ---- powers and quotients (backend spelling) ---------------------------------------
 
 
-@reg("powers_triangle", "c01 c08 c09 c16 c18 q")
+@reg("powers_triangle", "c01 c08 c16 c18 q")
 def _():
     m = mesh("triangle")
     V = space(m)
